@@ -166,9 +166,21 @@ def check_decode(image, kind, off, mode, stats, eio_at=None, base=0, pristine=No
     if eio_at is not None and backing is not None and getattr(backing, 'eio_fired', False):
         stats['eio-fired'] = stats.get('eio-fired', 0) + 1
         # relaxed on purpose: None or a propagated OSError, nothing else
-        if got[0] == 'ok' and got[1] is None:
-            return None
-        if got[0] == 'exc' and got[1] in ('OSError', 'IOError'):
+        if (got[0] == 'ok' and got[1] is None) or (got[0] == 'exc' and got[1] in ('OSError', 'IOError')):
+            # the fault was transient: the client seeks back and asks again on the SAME stream object - now the
+            # answer must be the ordinary one (nothing of the failed attempt may stick to the stream or the decoder)
+            if ref[0] == 'ok':
+                try:
+                    st.offset = base + off
+                except Exception:
+                    return {'class': 'eio:retry-cannot-reposition', 'detail': {'backend': kind, 'off': off, 'eio_at': eio_at}}
+                again = outcome(lambda: view(s.A.x86mnemo.dis(st, a) if a else s.A.x86mnemo.dis(st)))
+                stats['eio-retried'] = stats.get('eio-retried', 0) + 1
+                if again != ref:
+                    return {'class': 'eio:retry-differs', 'detail': {'backend': kind, 'off': off, 'eio_at': eio_at, 'mode': mode,
+                                                                     'again': again[1] if again[0] == 'exc' else 'differs'}}
+                if again[1] is not None and st.offset != base + off + again[1]['l']:
+                    return {'class': 'eio:retry-stream-not-after-instruction', 'detail': {'backend': kind, 'off': off, 'eio_at': eio_at}}
             return None
         if got[0] == 'ok':
             return {'class': 'eio:instruction-from-undelivered-bytes', 'detail': {'backend': kind, 'off': off, 'eio_at': eio_at}}
